@@ -17,7 +17,7 @@ func Dirty(big bool) {
 	pat := []byte{0xCC, 0x33, 0xFF, 0x5A}[round.Add(1)%4]
 	sizes := []int{16, 64, 512, 4096, 4096}
 	if big {
-		sizes = append(sizes, 65536, 1<<20, 4<<20)
+		sizes = append(sizes, 65536, 1<<20)
 	}
 	bufs := make([][]byte, 0, len(sizes))
 	for _, n := range sizes {
